@@ -8,7 +8,7 @@ from ..registry import register
 
 def describe(c):
     return (f"rawOver={c['rawOver']} shape={c['shape']} root={c['root']} nodes={c['nodes']}x{c['nodeLen']} "
-            f"indices={c['idx']} escaped={c['escaped']} extra={c['extra']}")
+            f"indices={c['idx']} escaped={c['escaped']} extra={c['extra']} multibyte={c.get('mb', 0)}")
 
 
 @register("C35")
@@ -33,6 +33,7 @@ def check(ctx):
         for ln in lines:
             c = json.loads(ln)
             h = (c["root"] + c["nodes"] + c["nodeLen"] + c["idx"] + len(c["shape"]) + c["rawOver"] + ctx.seed) % 4
+            # one escaped/extra variant per class chosen by the seed, in BOTH the ASCII and the multi-byte flavour
             if c["escaped"] * 2 + c["extra"] == h:
                 keep.append(ln)
         lines = keep
